@@ -43,3 +43,51 @@ let run (id : string) (ops : string list) (out : out_channel) =
     | _ -> failwith ("licmp4 op: " ^ op)) ops
 
 let registered = Registry.register "Licmp4" run
+
+(* ---- extraction cross-check inside Coq (see c18.ml): every model call this glue makes for the ops of a
+   sampled case (decode with what the glue reads from the layer, serialize), restated as a Gallina term
+   and recomputed by vm_compute, must give the value the extracted code computed here. *)
+let coq_layer (l : icmp4) = Printf.sprintf "(mkIcmp4 %s %s %s %s %s %s)" (coq_zlist l.ic_contents) (coq_zlist l.ic_payload) (coq_z l.ic_typecode) (coq_z l.ic_csum) (coq_z l.ic_id) (coq_z l.ic_seq)
+let coq_junk d = Printf.sprintf "(repeat %s 8%%nat)" (coq_z (z_of_int (if d = 1 then 0xAA else 0)))
+let of_spec4 (h : string) : icmp4 = match split_on '.' h with
+  | [a; b; c; d] -> let z s = z_of_int (int_of_string s) in
+    { ic_contents = []; ic_payload = []; ic_typecode = z a; ic_csum = z b; ic_id = z c; ic_seq = z d }
+  | _ -> failwith "icmp4 spec"
+let to_coq (idx : int) (ops : string list) (out : out_channel) =
+  let n = ref 0 in
+  let name () = incr n; Printf.sprintf "sample_%d_%d" idx !n in
+  let small h = String.length h <= 300 in
+  let ex_dec (call : string) (((l, o), tr) : (icmp4 * unit Base.outcome) * bool) =
+    coq_example_named out (name ()) (Printf.sprintf "(let r := %s in (r, icmp4_render_panics (fst (fst r))))" call)
+      (Printf.sprintf "(%s, %s, %s, %s)" (coq_layer l) (coq_outcome coq_unit o) (coq_bool tr) (coq_bool (icmp4_render_panics l))) in
+  let ex_ser (l0 : icmp4) (p : BinNums.coq_Z list) (f : bool) (c : bool) (d : int) =
+    let r = icmp4_serialize l0 p f c (junk_of d) in
+    coq_example_named out (name ()) (Printf.sprintf "icmp4_serialize %s %s %s %s %s" (coq_layer l0) (coq_zlist p) (coq_bool f) (coq_bool c) (coq_junk d))
+      (coq_pair (coq_outcome coq_zlist) coq_layer r); r in
+  let dec_fresh b = ex_dec ("icmp4_decode_into icmp4_fresh " ^ coq_zlist b) (icmp4_decode_into icmp4_fresh b) in
+  Stdlib.List.iter (fun op ->
+    let k = String.index op ':' in
+    let nm = String.sub op 0 k and args = split_on ',' (String.sub op (k + 1) (String.length op - k - 1)) in
+    if !n < 6 then
+    match nm, args with
+    | "dec", [h] when small h -> dec_fresh (bytes_of_hex h)
+    | "dec2", [a; b] when small a && small b ->
+      let a = bytes_of_hex a and b = bytes_of_hex b in
+      ex_dec (Printf.sprintf "icmp4_dec2 %s %s" (coq_zlist a) (coq_zlist b)) (icmp4_dec2 a b)
+    | ("ser" | "new"), [h; fcd; p] when small h && small p ->
+      let l0 = if nm = "ser" then (let ((l, _), _) = icmp4_decode_into icmp4_fresh (bytes_of_hex h) in l) else of_spec4 h in
+      ignore (ex_ser l0 (bytes_of_hex p) (fcd.[0] = '1') (fcd.[1] = '1') (Char.code fcd.[2] - 48))
+    | ("rt" | "rtn"), [h; p] when small h && small p ->
+      let first = if nm = "rt" then begin
+          let b = bytes_of_hex h in
+          let ((l, o), _) = icmp4_decode_into icmp4_fresh b in
+          dec_fresh b; (match o with Base.Ok _ -> Some l | _ -> None) end
+        else Some (of_spec4 h) in
+      (match first with
+       | Some l ->
+         (match ex_ser l (bytes_of_hex p) true true 0 with
+          | (Base.Ok b2, _) -> dec_fresh b2
+          | _ -> ())
+       | None -> ())
+    | _ -> ()) ops
+let registered_coq = Registry.register_coq "Licmp4" ("From GP Require Import Base Licmp4Model.\n", to_coq)
